@@ -18,7 +18,7 @@
 (***************************************************************************)
 EXTENDS Naturals, Sequences, FiniteSets, TLC
 
-PreWriteFaults == {"flag", "nospec", "config_missing", "config_yaml", "config_field", "spec_missing", "spec_yaml", "spec_invalid", "not_implemented", "route"}
+PreWriteFaults == {"flag", "nospec", "config_missing", "config_yaml", "config_field", "config_feature", "config_feature_disable", "config_type", "spec_missing", "spec_yaml", "spec_invalid", "not_implemented", "route"}
 FaultPoints == PreWriteFaults \cup {"none", "version"}
 
 \* name classes used by the scenarios
@@ -28,6 +28,8 @@ NameClasses == {
   [name |-> "oas_ro_gen.go", kind |-> "own"],                \* read-only own file
   [name |-> "user.go", kind |-> "user"], [name |-> "oas_gen.go.bak", kind |-> "user"], [name |-> "myoas_x_gen.go", kind |-> "user"],
   [name |-> "readme_gen.go", kind |-> "user"], [name |-> "oas_notes.txt", kind |-> "user"], [name |-> "Oas_x_gen.go", kind |-> "user"],
+  \* the extension is part of the pattern
+  [name |-> "openapi_gen", kind |-> "user"], [name |-> "oas_fix_gen_test", kind |-> "user"], [name |-> "oas_x_gen.gotmpl", kind |-> "user"],
   [name |-> "oas_dir_gen.go", kind |-> "dir"], [name |-> "sub", kind |-> "dir"],
   [name |-> "sub/oas_z_gen.go", kind |-> "nested"] }
 Own(e) == e.kind = "own"
